@@ -29,6 +29,7 @@ class ScriptedTransport(AbstractMessagingTransport):
         self.connected = False
         self.closed = 0
         self.fail_sends = False
+        self.failed_attempts = 0   # send_frame calls made while the write side is broken
         self.name = name
         self.on_sent = None
         self.on_pull = None
@@ -37,6 +38,7 @@ class ScriptedTransport(AbstractMessagingTransport):
     # -- outgoing ------------------------------------------------------------------------------
     async def send_frame(self, frame):
         if self.fail_sends:
+            self.failed_attempts += 1
             raise RSocketTransportError()
         # serialise exactly like the real message transports do; a frame that cannot be serialised is a library bug
         wire = frame.serialize()
